@@ -308,6 +308,23 @@ func (e *Exec) applyContract(st *State, fr *Frame, fn *ssa.Function, ct *Contrac
 	if st.Dead {
 		return nil
 	}
+	// lengths that the contract fixes to constants become syntactic constants (so that loops over the
+	// result unroll and quantifier bounds expand)
+	if m := constFacts(st.PC); len(m) > 0 {
+		for i, r := range results {
+			if sv, ok := r.(*SliceVal); ok && sv.Obj != 0 {
+				nl := e.C.Subst(sv.Len, m)
+				if nl.IsConst() && nl != sv.Len {
+					nsv := *sv
+					nsv.Len = nl
+					if c2 := e.C.Subst(sv.Cap, m); c2.IsConst() {
+						nsv.Cap = c2
+					}
+					results[i] = &nsv
+				}
+			}
+		}
+	}
 	return []callRes{{st, packResults(results)}}
 }
 
